@@ -60,8 +60,32 @@ fn extra_member() -> BoxedStrategy<ExtraMember> {
     (ident(), 0u8..16, any::<bool>(), 0u8..5, any::<u32>()).prop_map(|(name, kind, present, len, seed)| ExtraMember { name: format!("x_{}", name), kind, present, len, seed }).boxed()
 }
 
+/// twelve floats (position, rotation, scale: four each) as bit patterns: arbitrary ones, with zeros, negative zeros and ones
+/// common, and one group in eight zero as a whole (+0.0 or -0.0) or the identity rotation - values a reader might be tempted
+/// to "repair"
+fn pose_strategy() -> BoxedStrategy<Vec<u32>> {
+    let fl = prop_oneof![6 => any::<u32>(), 1 => Just(0u32), 1 => Just(0x8000_0000u32), 1 => Just(0x3f80_0000u32), 1 => Just(0xbf80_0000u32)];
+    (vec(fl, 12), any::<u16>())
+        .prop_map(|(mut v, k)| {
+            for g in 0..3 {
+                let sel = (k >> (4 * g)) & 15;
+                let fill: Option<[u32; 4]> = match sel {
+                    0 => Some([0; 4]),
+                    1 => Some([0x8000_0000; 4]),
+                    2 => Some([0, 0, 0, 0x3f80_0000]),
+                    _ => None,
+                };
+                if let Some(f) = fill {
+                    v[4 * g..4 * g + 4].copy_from_slice(&f);
+                }
+            }
+            v
+        })
+        .boxed()
+}
+
 fn skel_strategy(_: &Ctx) -> BoxedStrategy<SkelCase> {
-    let bone = (prop_oneof![6 => ident(), 2 => Just("j_kosi".to_string()), 1 => Just(String::new()), 2 => gen::from_alphabet("n_hara_abcdefghijklmnopqrstuvwxyz", 100, 130)], any::<u16>(), vec(any::<u32>(), 12));
+    let bone = (prop_oneof![6 => ident(), 2 => Just("j_kosi".to_string()), 1 => Just(String::new()), 2 => gen::from_alphabet("n_hara_abcdefghijklmnopqrstuvwxyz", 100, 130)], any::<u16>(), pose_strategy());
     (
         (0u8..3, 0u8..40, vec(bone, 1..=40), any::<bool>(), any::<bool>(), 0u8..4),
         (vec((0u8..5, any::<u8>(), extra_member()), 0..8), vec((ident(), vec(extra_member(), 0..5)), 0..4), any::<bool>(), 0u8..3, 0u8..3, any::<u8>(), ident(), any::<[u32; 4]>()),
